@@ -17,7 +17,12 @@ def build_circuit(rng, n_ff, n_in, n_out):
     clk = Node(c, 'clk', 'input')
     sis, sos = [], []
     outs = [Node(c, f'y{i}', 'output') for i in range(n_out)]
+    # an edited circuit: cells created before the flip-flops are removed again afterwards, which moves the last flip-flop(s) to their
+    # indices -- index order (the circuit's state ordering) then differs from creation order
+    junk = [Node(c, f'junk{i}', 'BUF1') for i in range(rng.choice([0, 0, 1, 2]))]
     ffs = [Node(c, f'ff{i}', rng.choice(['SDFFX1', 'SDFF_X1', 'SDFFARX1_RVT'])) for i in range(n_ff)]
+    for j in junk:
+        j.remove()
     sigs = []
     for n in ins + ffs:
         f = Node(c, n.name + '_f')
@@ -257,7 +262,7 @@ def run_case(args):
 
 def part(tier, seed):
     b = BoundedPart('C18-stil-round-trip', ['kyupy.stil.parse', 'kyupy.stil.StilFile.__init__/_maps/tests/tests_loc/responses', 'kyupy.logic.mv_transition'],
-                    'seeded scan circuits (1-7 scan flip-flops in 1-3 chains of random order, 0-3 inversion markers at random places incl. chain ends, shuffled ports and '
+                    'seeded scan circuits (1-7 scan flip-flops in 1-3 chains of random order, in half of the cases re-indexed by removing earlier cells, 0-3 inversion markers at random places incl. chain ends, shuffled ports and '
                     'signal groups) x pattern sets (1-4 patterns; loads over 0/1/X, unloads over L/H/X, PI over 0/1/N, PO over L/H/X; static capture or launch+capture calls, each independently with '
                     'and without clock pulses): tests() / responses() equal the intended value at every flip-flop (chain order: first shifted bit = cell nearest scan-out; '
                     'inversions between scan-in resp. scan-out and the cell) and port (signal-group order), rows in port/state order; tests_loc() combines loaded and next state; '
